@@ -77,6 +77,7 @@ void ghost_on_free(void* p, size_t size);
 void ghost_switch(void);
 void ghost_init(void);
 int ghost_all_maint(void);
+void ghost_idle_probe(void);
 
 /* glue (instrumented flags, no_sanitize_thread) */
 void glue_switch_info(void** oldf, void** newf, int* is_maint);
